@@ -114,7 +114,11 @@ TSubWater == /\ IsEvent("sub.water") /\ pc = "subWater"
 
 TSubCrop == /\ IsEvent("sub.crop") /\ pc = "subCrop"
             /\ pc' = "nitroMineral" /\ ix' = [ix EXCEPT !.crop = l, !.cropPrev = ix.crop]
-            /\ hist' = (IF E.sowday /\ E.growing THEN [hist EXCEPT !.sow = Append(@, <<E.zeit, E.akf>>)] ELSE hist)
+            /\ hist' = [hist EXCEPT
+                   !.sow = IF E.sowday /\ E.growing THEN Append(@, <<E.zeit, E.akf>>) ELSE @,
+                   \* the day a development stage was entered (same crop as yesterday, stage index grew)
+                   !.stageDays = IF E.growing /\ prev.growing /\ prev.akf = E.akf /\ E.intwick > prev.intw
+                                 THEN Append(@, <<E.akf, E.intwick, E.doy, E.zeit>>) ELSE @]
             /\ Keep(<<nsub, acc, prev, tenv, gwseen>>)
 
 \* Nitro(): fertiliser and tillage are applied before the mineralisation probe; their execution shows
@@ -517,6 +521,61 @@ C05_YearlyCount == (IsOut("out.end") /\ Ev.kind = "yearly" /\ Has(Gen, "annual")
 C05_CropRecords == (IsOut("out.crop") /\ Has(Gen, "rotCrops")) => outs.ccount <= Len(Gen.rotCrops) /\ Ev.crop = Gen.rotCrops[outs.ccount]
 C05_CropCount == (IsOut("out.end") /\ Ev.kind = "crop") => outs.ccount = Len(hist.harv)
 C05_All == C05_Fields /\ C05_ValidDates /\ C05_DailyFirst /\ C05_DailyConsecutive /\ C05_DailyEnd /\ C05_NoMissingFile /\ C05_YearlyDates /\ C05_YearlyCount /\ C05_CropRecords /\ C05_CropCount
+
+
+\* =============================================================================================
+\* C09  crop state stays valid, development never runs backwards
+\* =============================================================================================
+Growing == l > 1 /\ Ev.ev = "sub.crop" /\ Ev.growing
+C09_NonNeg == Growing => /\ \A i \in 1..Len(Ev.WORG) : Ev.WORG[i] >= 0
+                         /\ Ev.obmas >= 0 /\ Ev.wumas >= 0 /\ Ev.lai >= 0 /\ Ev.aspoo >= 0 /\ Ev.pesum >= 0
+                         /\ Ev.gehob >= 0 /\ Ev.wugeh >= 0 /\ Ev.finite
+C09_Stress == Growing => Ev.reduk >= 0 /\ Ev.reduk <= 1000000000 /\ Ev.trrel >= 0 /\ Ev.trrel <= 1000000000
+\* the soil's root limit as the model applies it: effective rooting depth of the profile scaled by the crop's
+\* rooting-depth factor (reference 11 dm), rounded, at least one layer (crop.go:572-578)
+RootLimit == Max(1, (2 * Ev.wurzmax * Ev.wumaxpf + 11000) \div 22000)
+C09_RootDepth == Growing => Ev.wurz >= 0 /\ Ev.wurz <= Min(Ev.N, RootLimit)
+\* the stage index of an annual crop never decreases between sowing and harvest
+C09_StageMonotone == (Growing /\ prev.growing /\ prev.akf = Ev.akf /\ ~Ev.dauerkult) => Ev.intwick >= prev.intw
+\* the reported day of year of a stage is the day the stage was entered
+C09_StageDay == (Growing /\ prev.growing /\ prev.akf = Ev.akf /\ Ev.intwick > prev.intw) => Ev.DEV[Ev.intwick] = Ev.doy
+\* crop record: emergence / anthesis / maturity are the days stage 2 / 5 / 6 were entered by THIS crop (a stage that
+\* was not reached is exempt)
+StageDoy(a, st) == LET S == {i \in 1..Len(hist.stageDays) : hist.stageDays[i][1] = a /\ hist.stageDays[i][2] = st}
+                   IN IF S = {} THEN 0 - 1 ELSE hist.stageDays[CHOOSE i \in S : TRUE][3]
+C09_ReportedPhenology == (IsOut("out.crop") /\ Has(Ev, "emerg") /\ outs.ccount <= Len(hist.harv)) =>
+   LET a == hist.harv[outs.ccount][2] IN
+   /\ (StageDoy(a, 2) >= 0 => Ev.emerg = StageDoy(a, 2))
+   /\ (StageDoy(a, 5) >= 0 => Ev.anth = StageDoy(a, 5))
+   /\ (StageDoy(a, 6) >= 0 => Ev.mat = StageDoy(a, 6))
+C09_All == C09_NonNeg /\ C09_Stress /\ C09_RootDepth /\ C09_StageMonotone /\ C09_StageDay /\ C09_ReportedPhenology
+
+\* =============================================================================================
+\* C16  rotation followed; automatic management inside its windows
+\*      header: Gen.win[j] = <<earliest sowing, latest sowing, latest harvest>> of rotation entry j + 1 (0 = fixed date)
+\* =============================================================================================
+\* crops are grown in rotation order: the i-th finished crop is rotation entry i (0-based index i)
+C16_Order == (l > 1 /\ Ev.ev = "sub.nitro" /\ Ev.finished) => hist.harv[Len(hist.harv)][2] = Len(hist.harv)
+\* the crop record carries the crop code and the harvest year of its rotation entry
+C16_CropRecord == (IsOut("out.crop") /\ Has(Ev, "hyear") /\ Has(Gen, "rotCrops") /\ outs.ccount <= Len(hist.harv)) =>
+   /\ Ev.crop = Gen.rotCrops[outs.ccount]
+   /\ Ev.hyear = YearOfN(hist.harv[outs.ccount][1])
+\* automatic sowing inside the window and after the previous harvest (fixed dates: on the date, see C10_SowHarvest)
+C16_SowWindow == (l > 1 /\ Ev.ev = "sub.crop" /\ Ev.sowday /\ Ev.growing /\ Cfg.autoMan /\ Has(Gen, "win")) =>
+   LET w == Gen.win[Ev.akf] IN
+   /\ (w[1] > 0 => Ev.zeit >= w[1] /\ Ev.zeit <= w[2])
+   /\ (Len(hist.harv) > 0 => Ev.zeit > hist.harv[Len(hist.harv)][1])
+\* automatic harvest not later than the latest harvest date
+C16_HarvestWindow == (l > 1 /\ Ev.ev = "sub.nitro" /\ Ev.finished /\ Cfg.autoHar /\ Has(Gen, "win")) =>
+   LET w == Gen.win[Crop.akf] IN w[3] > 0 => Ev.zeit <= w[3]
+\* automatic irrigation only between the configured development stages and not above the daily maximum
+C16_AutoIrrigation == (AfterInputs /\ Ev.irrigated /\ Cfg.autoIrr) =>
+   /\ Ev.intwick * 1000 >= Cfg.IRRST1[Ev.akfNow + 1] /\ Ev.intwick * 1000 < Cfg.IRRST2[Ev.akfNow + 1] + 1000
+   /\ Ev.irrmm <= Cfg.IRRMAX[Ev.akfNow + 1] * 1000 + 1
+   /\ Ev.irrmm >= 0
+\* automatic N applications are never negative
+C16_AutoN == (AfterMineral /\ Cfg.autoFert) => LGeNeg(D(Minr, Crop, "DSUMM"), TolN)
+C16_All == C16_Order /\ C16_CropRecord /\ C16_SowWindow /\ C16_HarvestWindow /\ C16_AutoIrrigation /\ C16_AutoN
 
 \* ---------------------------------------------------------------------------------------------
 Alias == [l |-> l, pc |-> pc, nsub |-> nsub,
